@@ -1974,3 +1974,90 @@ def c18e(chk):
                     bw.append(a["path"])
     chk.extra["bufwriters_flushed_before_success"] = sorted(set(flushed))
     chk.ob("C18.e", "no-BufWriter", not bw, "", "no BufWriter/LineWriter value exists in the workspace that could be dropped with unwritten bytes: none at all, or only ones whose function cannot return without `flush()?` / an error (unflushed or escaping: %s; flushed before every success: %s)" % (sorted(set(bw)), sorted(set(flushed))))
+
+
+# ---- contradiction rule: a k-element window compared for equality with an n-element constant, k != n, is never equal ----
+def _array_len_of_ty(ty):
+    m = re.search(r"\[[^;\]]+; (\d+)\]", ty or "")
+    return int(m.group(1)) if m else None
+
+
+def _len_value(f, op, depth=0):
+    """compile-time value of a length operand: an integer constant, or `len()` of an array (constant or coerced array reference)"""
+    c = an._const_int_of(f, op)
+    if c is not None:
+        return c
+    l = op_local(op)
+    if l is None or depth > 6:
+        return None
+    d = f.single_def(f.copy_root(l))
+    if d and d[0] == "call" and (d[2]["callee"].get("path") or "") == "core::slice::<impl [T]>::len" and d[2]["args"]:
+        a = op_local(d[2]["args"][0])
+        dd = f.single_def(f.copy_root(a)) if a is not None else None
+        if dd and dd[0] == "assign" and dd[3]["k"] == "cast" and "Unsize" in (dd[3].get("kind") or ""):
+            return _array_len_of_ty(dd[3].get("from"))
+    return None
+
+
+def _range_window(f, op):
+    """(start, length) of a constant range operand `..n`, `..=n`, `a..b`, else None"""
+    l = op_local(op)
+    d = f.single_def(f.copy_root(l)) if l is not None else None
+    if not (d and d[0] == "assign" and d[3]["k"] == "aggregate" and (d[3].get("adt") or "").startswith("core::ops::range::")):
+        return None
+    kind = d[3]["adt"].split("::")[-1]
+    vals = [_len_value(f, o) for o in d[3]["ops"]]
+    if any(v is None for v in vals):
+        return None
+    if kind == "RangeTo":
+        return (0, vals[0])
+    if kind == "RangeToInclusive":
+        return (0, vals[0] + 1)
+    if kind == "Range":
+        return (vals[0], vals[1] - vals[0])
+    return None
+
+
+def window_constant_compares(prog, want=lambda f: True):
+    """[(fn, block, window_len, const_len)] for every `==` between a constant-range window of a slice (`s.get(a..b)`, `&s[a..b]`)
+    and a fixed-size array in the selected workspace functions"""
+    out = []
+    for f in prog.fn_list:
+        if f.derived or not want(f):
+            continue
+        for b, t in f.calls():
+            ce = t["callee"]
+            if (ce.get("path") or "") not in ("core::cmp::PartialEq::eq", "core::cmp::PartialEq::ne"):
+                continue
+            args_ty = ce.get("args") or []
+            n = None
+            win = None
+            for i, a in enumerate(t["args"][:2]):
+                ty = args_ty[i] if i < len(args_ty) else ""
+                k = _array_len_of_ty(ty) if ty.lstrip("&").startswith("[") and ";" in ty else None
+                if k is not None:
+                    n = k
+                    continue
+                # a slice operand: where does it come from
+                l = op_local(a)
+                seen = 0
+                while l is not None and seen < 12:
+                    seen += 1
+                    d = f.single_def(f.copy_root(l))
+                    if d is None:
+                        break
+                    if d[0] == "assign" and d[3]["k"] == "ref":
+                        l = d[3]["place"]["l"] if isinstance(d[3]["place"], dict) else P(d[3]["place"])[0]
+                        continue
+                    if d[0] == "assign" and d[3]["k"] == "use":
+                        p = op_place(d[3]["op"])
+                        if p is None:
+                            break
+                        l = p[0]
+                        continue
+                    if d[0] == "call" and (d[2]["callee"].get("path") or "") in ("core::slice::<impl [T]>::get", "core::ops::Index::index", "core::slice::<impl [T]>::get_mut") and len(d[2]["args"]) == 2:
+                        win = _range_window(f, d[2]["args"][1])
+                    break
+            if n is not None and win is not None:
+                out.append((f, b, win[1], n))
+    return out
